@@ -384,7 +384,7 @@ _c15 = [
     ("c15_nn3_exact_pow2", dict(nofloat=True, tier="thorough", unit="same", inst="same", bounds="dim 3", oracle="same", timeout=3000)),
     ("c15_zero_cone", dict(nofloat=True, unit="ZeroCone::step_length", inst="f64", bounds="dim 2", oracle="(alpha_max, alpha_max)")),
     ("c15_backtrack", dict(nofloat=True, unit="nonsymmetric_common::backtrack_search", inst="f64", bounds="arbitrary membership oracle (6 arbitrary answers), step 0.5, alpha_min = alpha_init/20", oracle="terminates; returns 0 or alpha_init*step^k; returned alpha accepted, all larger candidates rejected", timeout=1200)),
-    ("c15_backtrack_long", dict(nofloat=True, unit="nonsymmetric_common::backtrack_search", inst="f64", bounds="alpha_init 1, step 1/2, alpha_min 2^-70 (up to 71 trials); the oracle accepts exactly the j-th candidate, j symbolic in 0..90", oracle="returns 2^-j if j <= 70 (after exactly j+1 oracle calls), else 0 after 71 calls: no trial budget other than alpha_min, never an untested value", timeout=1800, mem_gb=20)),
+    ("c15_backtrack_long", dict(nofloat=True, unit="nonsymmetric_common::backtrack_search", inst="f64", bounds="alpha_init 1, step 1/2, alpha_min 2^-70 (up to 71 trials); the oracle (a function of the point shown, not of the call count) accepts exactly the point of the j-th candidate (j symbolic in 0..51) or nothing at all", oracle="returns 2^-j and leaves that point in the work vector; 0 after all 71 candidates if nothing is accepted: no trial budget other than alpha_min, never an untested value", timeout=1800, mem_gb=20)),
     ("c15_composite_nn_zero_nn", dict(nofloat=True, stubs=True, unit="CompositeCone::step_length (+ NonnegativeCone / ZeroCone)", inst="f64: signed powers of two", bounds="[NN1, Zero1, NN2]", oracle="common step == exact minimum over the cones' ratio tests and alpha_max; zero cone unrestricted", timeout=1800, mem_gb=20)),
     ("c15_shift_nn", dict(nofloat=True, stubs=True, unit="DefaultVariables::symmetric_initialization -> _shift_to_cone_interior, CompositeCone::margins/scaled_unit_shift", inst="f64, |v| <= 1e100", bounds="[NN2, Zero1]", oracle="afterwards s,z strictly positive in the NN cone; zero-cone slack 0; tau=kappa=1", timeout=1800)),
 ]
